@@ -595,6 +595,47 @@ func RunInvalid(c *core.Ctx) {
 			return nd
 		})
 	})
+	// user code that panics inside a read: the panic reaches the caller, who may recover; no transaction stays open
+	recovered := func(f func() error) func() error {
+		return func() (e error) {
+			defer func() {
+				if r := recover(); r != nil {
+					e = fmt.Errorf("user code panicked: %v", r)
+				}
+			}()
+			return f()
+		}
+	}
+	add("ForEach(consumer panics at the second document)", recovered(func() error {
+		k := 0
+		return db.ForEach(query.NewQuery("t"), func(*document.Document) bool {
+			k++
+			if k == 2 {
+				panic("user code failed")
+			}
+			return true
+		})
+	}))
+	add("ForEach(sorted, consumer panics)", recovered(func() error {
+		return db.ForEach(query.NewQuery("t").Sort(query.SortOption{Field: "u", Direction: -1}), func(*document.Document) bool { panic("user code failed") })
+	}))
+	add("FindAll(MatchFunc panics)", recovered(func() error {
+		_, e := db.FindAll(query.NewQuery("t").MatchFunc(func(doc *document.Document) bool { panic("user code failed") }))
+		return e
+	}))
+	add("Delete(MatchFunc panics at the second document)", recovered(func() error {
+		k := 0
+		return db.Delete(query.NewQuery("t").MatchFunc(func(doc *document.Document) bool {
+			k++
+			if k == 2 {
+				panic("user code failed")
+			}
+			return true
+		}))
+	}))
+	add("UpdateById(updater panics)", recovered(func() error {
+		return db.UpdateById("t", ids[0], func(doc *document.Document) *document.Document { panic("user code failed") })
+	}))
 	add("Update(map with bad _expiresAt)", func() error {
 		return db.Update(query.NewQuery("t"), map[string]interface{}{"_expiresAt": "x", "a": int64(1)})
 	})
